@@ -180,6 +180,108 @@ def main():
                         fail("ingested object does not hash to its name", {"mutation": [kind, where], "store": store_kind, "outcome": list(map(str, r2))})
                 if store_kind == "disk":
                     store.close()
+        # ---------- (c) every ingestion path x (damaged pack | well-formed pack carrying an unparsable object)
+        def pack_dir_listing(store):
+            return sorted(x for x in os.listdir(store.pack_dir) if not x.startswith("tmp"))
+
+        def fresh_view(store):
+            s2 = DiskObjectStore(store.path)
+            try:
+                return sorted(s2)
+            finally:
+                s2.close()
+        garbage = {"tree-no-nul": (2, b"100644 a"), "tree-bad-mode": (2, b"1x0644 a\0" + bytes(20)), "tag-truncated": (4, b"object"),
+                   "commit-no-tree": (1, b"author a <b> 1 +0000\n\nm"), "tree-short-sha": (2, b"100644 a\0" + bytes(7))}
+        bad_packs = [("object:" + k, raw_pack([(3, None, b"fine\n"), (t, None, payload)])[0]) for k, (t, payload) in garbage.items()]
+        sweep = [(f"{kind}@{where}", m) for kind, where, m in mutants(good_pack) if kind in ("truncate", "flip", "append")]
+        if tier == "quick":
+            sweep = sweep[::2]
+
+        def paths(store, m):
+            def thin():
+                store.add_thin_pack(BytesIO(m).read, None)
+
+            def add_pack_commit():
+                f, commit, abort = store.add_pack()
+                try:
+                    f.write(m)
+                except BaseException:
+                    abort()
+                    raise
+                commit()
+
+            def add_pack_data():
+                src = BytesIO(m)
+                rd = P.PackStreamReader(FMT.hash_func, src.read) if hasattr(FMT, "hash_func") else None
+                count, unpacked = (None, None)
+                from dulwich.pack import PackData
+                pdpath = os.path.join(d, "pd_tmp.pack")
+                open(pdpath, "wb").write(m)
+                pd = PackData(pdpath, object_format=FMT)
+                try:
+                    store.add_pack_data(len(pd), pd.iter_unpacked())
+                finally:
+                    pd.close()
+            return [("add_thin_pack", thin), ("add_pack+commit", add_pack_commit), ("add_pack_data", add_pack_data)]
+
+        for label, m in bad_packs + sweep:
+            for store_kind in ("memory", "disk"):
+                for pi in range(3):
+                    if label[:6] != "object" and pi == 0:
+                        continue            # add_thin_pack x byte-level damage is sweep (b)
+                    cases += 1
+                    if store_kind == "memory":
+                        store = MemoryObjectStore()
+                    else:
+                        store = DiskObjectStore.init(tempfile.mkdtemp(dir=d))
+                    before = sorted(store)
+                    listing0 = pack_dir_listing(store) if store_kind == "disk" else None
+                    pname, fn = paths(store, m)[pi]
+                    r = guarded(fn)
+                    key = f"{pname}:{r[0]}:{r[1] if r[0] == 'exc' else ''}"
+                    outcomes[key] = outcomes.get(key, 0) + 1
+                    what = {"input": label, "store": store_kind, "path": pname, "outcome": list(map(str, r))[:2]}
+                    if r[0] in ("timeout", "fatal"):
+                        fail("ingestion did not terminate cleanly", what)
+                    elif r[0] == "exc":
+                        after = sorted(store)
+                        if after != before:
+                            fail("failed ingestion left objects visible", dict(what, new_objects=len(after) - len(before)))
+                        elif store_kind == "disk" and (pack_dir_listing(store) != listing0 or fresh_view(store) != before):
+                            fail("failed ingestion left a pack installed", dict(what, files=pack_dir_listing(store)))
+                    else:
+                        # (a pack whose objects merely fail a later check(), e.g. a commit without tree, may be accepted: it hashes to its name)
+                        r2 = guarded(lambda store=store: ids_ok(store))
+                        if r2 != ("ok", True):
+                            fail("ingested object does not hash to its name", dict(what, check=list(map(str, r2))))
+                    if store_kind == "disk":
+                        store.close()
+        # ---------- (d) resource containment on loose objects: no NUL within the 8 KiB header window, then a bomb
+        import tracemalloc
+        for label, payload in (("no-nul-bomb", b"x" * 9000 + b"\0" * (64 << 20)), ("header-then-bomb", b"blob 5\0" + b"y" * (64 << 20))):
+            cases += 1
+            comp = zlib.compress(payload, 9)
+            lpath = os.path.join(d, "loose_" + label)
+            open(lpath, "wb").write(comp)
+            tracemalloc.start()
+            r = guarded(lambda: ShaFile.from_path(lpath, max_size=1 << 20), cap=20)
+            peak = tracemalloc.get_traced_memory()[1]
+            tracemalloc.stop()
+            if r[0] != "exc" or peak > (8 << 20):
+                fail("loose object inflated beyond its limit", {"case": label, "compressed": len(comp), "peak_bytes": peak, "outcome": list(map(str, r))[:2]})
+        # ---------- (e) index files whose saturated name-length field is not followed by a terminator
+        from dulwich.index import IndexEntry
+        lp = os.path.join(d, "long_idx")
+        lix = Index(lp, read=False)
+        lix[b"d/" + b"n" * 0x1000] = IndexEntry((1, 2), (3, 4), 5, 6, 0o100644, 7, 8, 9, blobs[0].id)
+        lix.write()
+        long_index = open(lp, "rb").read()
+        for label, data in [(f"long-name-truncated@{cut}", long_index[:cut]) for cut in (70, 74, 1000, 4000, len(long_index) - 30, len(long_index) - 21, len(long_index) - 20, len(long_index) - 1)]:
+            cases += 1
+            open(lp, "wb").write(data)
+            r = guarded(lambda: list(Index(lp)), cap=5)
+            if r[0] != "exc":
+                fail("truncated long-name index not rejected promptly", {"case": label, "outcome": list(map(str, r))[:2]})
         # packed-refs and loose objects and index: reading must terminate with an ordinary error or a value
         sha = blobs[0].id
         packed = b"# pack-refs with: peeled fully-peeled sorted \n" + sha + b" refs/heads/a\n" + sha + b" refs/tags/t\n^" + sha + b"\n"
@@ -190,6 +292,16 @@ def main():
         ix[b"a/b"] = IndexEntry((1, 2), (3, 4), 5, 6, 0o100644, 7, 8, 9, sha)
         ix.write()
         good_index = open(ipath, "rb").read()
+        for flagpos in (70, 71):
+            pass
+        forged = bytearray(good_index)
+        forged[12 + 60:12 + 62] = b"\x0f\xff"        # name-length field of the first entry saturated, no terminator follows
+        for label, data in (("flags-0x0fff", bytes(forged)), ("flags-0x0fff+trailer", bytes(forged[:-20]) + hashlib.sha1(bytes(forged[:-20])).digest())):
+            cases += 1
+            open(ipath, "wb").write(data)
+            r = guarded(lambda: list(Index(ipath)), cap=5)
+            if r[0] != "exc":
+                fail("index with a saturated name length and no terminator not rejected promptly", {"case": label, "outcome": list(map(str, r))[:2]})
         for label, data, reader in (
                 ("packed-refs", packed, lambda m: list(read_packed_refs(BytesIO(m)))),
                 ("loose object", loose, lambda m: ShaFile.from_file(BytesIO(m)).as_raw_string()),
@@ -201,10 +313,11 @@ def main():
                     fail(f"reading a damaged {label} did not terminate cleanly", {"mutation": [kind, where], "outcome": list(r)})
                 if label == "index file" and r[0] == "ok" and kind in ("subst", "flip", "truncate") and m != data:
                     fail("damaged index accepted (trailer not verified)", {"mutation": [kind, where]})
-    print(json.dumps({"name": "c04_hostile", "function": "ingestion paths: Pack.get_raw, add_thin_pack (memory/disk), read_packed_refs, ShaFile.from_file, Index.read",
+    print(json.dumps({"name": "c04_hostile", "function": "ingestion paths: Pack.get_raw, add_thin_pack / add_pack+commit / add_pack_data (memory/disk), read_packed_refs, ShaFile.from_file/from_path, Index.read",
                       "cases": cases, "exhaustive": True,
                       "bound": f"4 crafted delta graphs; every truncation, 3 appended tails, bit flip and {len(subs)} substitute values at every position of "
-                               f"a {len(good_pack)}-byte pack (x memory/disk store), a packed-refs file, a loose object and an index file; 5 s cap per case",
+                               f"a {len(good_pack)}-byte pack (x memory/disk store), a packed-refs file, a loose object and an index file; truncations/flips/tails x add_pack+commit and add_pack_data, 5 packs carrying an unparsable tree/tag/commit "
+                               f"x 3 ingestion paths x 2 stores with the store compared before/after (fresh instance too); 2 loose-object bombs (peak memory <= 8 MiB); 10 long-name index forgeries; 5 s cap per case",
                       "ingest_outcomes": outcomes, "failures": failures, "secs": round(time.time() - t0, 2)}))
 
 
